@@ -413,6 +413,99 @@ pub fn same_meaning(m: &M, a: &rooc::LinearModel, b_: &rooc::LinearModel, rng: &
     Ok(decided)
 }
 
+/// (c) a coefficient computed in the where-section, written as a literal, and written inline must give
+/// the same linear model: `let c = 1 - 0.25`, `let c = 0.75`, `(1 - 0.25) * x`.
+fn where_constant_twins(rng: &mut ChaCha8Rng, out: &mut UnitOut, only: Option<usize>) {
+    use rooc::RoocParser;
+    let ints = [1.0, 2.0, 3.0, 5.0, 8.0];
+    let decs = [0.25, 0.5, 1.5, 2.75, 0.125];
+    for k in 0..6 {
+        let case = 100 + k;
+        // operands: integer literal or decimal literal, all dyadic so that the value is exact
+        let pick = |rng: &mut ChaCha8Rng| -> (f64, String) {
+            if rng.gen_bool(0.5) {
+                let v = ints[rng.gen_range(0..ints.len())];
+                (v, format!("{}", v as i64))
+            } else {
+                let v = decs[rng.gen_range(0..decs.len())];
+                (v, format!("{v}"))
+            }
+        };
+        let (a, ta) = pick(rng);
+        let (b, tb) = pick(rng);
+        let (d, td) = pick(rng);
+        let dv = [0.25, 0.5, 2.0, 4.0][rng.gen_range(0..4)];
+        // template with B standing for the right operand, so that it can be routed through a second constant
+        let (value, template, shape): (f64, String, &str) = match rng.gen_range(0..7) {
+            0 => (a - b, format!("{ta} - B"), "a - b"),
+            1 => (a + b, format!("{ta} + B"), "a + b"),
+            2 => (a * b, format!("{ta} * B"), "a * b"),
+            3 => (b / dv, format!("B / {dv}"), "a / dec"),
+            4 => ((a - b) * d, format!("({ta} - B) * {td}"), "(a - b) * d"),
+            5 => (-a + b, format!("-{ta} + B"), "-a + b"),
+            _ => (a - b - d, format!("{ta} - B - {td}"), "a - b - d"),
+        };
+        let expr = template.replace('B', &tb);
+        let via_second = rng.gen_bool(0.3);
+        if only.is_some_and(|o| o != case) {
+            continue;
+        }
+        out.case = case;
+        out.eval();
+        if value == 0.0 {
+            continue;
+        }
+        let lit = if value < 0.0 { format!("0 - {}", crate::text::num_text(value)) } else { crate::text::num_text(value) };
+        let body = |coef: &str, wh: &str| format!("min {coef} * x + y\ns.t.\n    {coef} * x + 2 * y <= 12\n    x + y >= 1\n{wh}define\n    x, y as Real(0, 10)\n");
+        let computed = if via_second {
+            // the right operand goes through a constant of its own
+            body("c", &format!("where\n    let p = {tb}\n    let c = {}\n", template.replace('B', "p")))
+        } else {
+            body("c", &format!("where\n    let c = {expr}\n"))
+        };
+        let literal = body("c", &format!("where\n    let c = {lit}\n"));
+        let inline = body(&format!("({expr})"), "");
+        let compile = |t: &str| -> Result<rooc::LinearModel, String> {
+            let r = std::panic::catch_unwind(|| RoocParser::new(t.to_string()).parse_and_transform(vec![], &indexmap::IndexMap::new()));
+            match r {
+                Ok(Ok(m)) => rooc::Linearizer::linearize(m).map_err(|e| format!("linearize: {e}")),
+                Ok(Err(e)) => Err(format!("transform: {}", e.lines().next().unwrap_or(""))),
+                Err(_) => Err("panic".into()),
+            }
+        };
+        let (lc, ll, li) = (compile(&computed), compile(&literal), compile(&inline));
+        let detail = json!({"computed": computed, "literal": literal, "inline": inline, "expression": expr, "value": value});
+        match (&lc, &ll, &li) {
+            (Ok(c), Ok(l), Ok(i)) => {
+                let coef = |m: &rooc::LinearModel| {
+                    let j = m.variables().iter().position(|v| v == "x").unwrap_or(0);
+                    (m.objective()[j], m.constraints().first().map(|r| r.coefficients()[j]).unwrap_or(f64::NAN))
+                };
+                let (cc, cl, ci) = (coef(c), coef(l), coef(i));
+                let close = |p: (f64, f64), q: (f64, f64)| (p.0 - q.0).abs() <= 1e-12 * q.0.abs().max(1.0) && (p.1 - q.1).abs() <= 1e-12 * q.1.abs().max(1.0);
+                if close(cc, cl) && close(ci, cl) && close(cl, (value, value)) {
+                    out.tag("where-constant-twins-agree");
+                    out.tag(&format!("where-constant:{shape}"));
+                } else {
+                    out.violation(
+                        &format!("where-constant-spelling-changes-coefficient({shape})"),
+                        &format!("'{expr}' = {value}: coefficient of x is {:?} when computed in the where-section, {:?} as a literal, {:?} inline", cc, cl, ci),
+                        detail,
+                    );
+                }
+            }
+            (a_, b_, c_) => {
+                let cls = |r: &Result<rooc::LinearModel, String>| r.as_ref().err().cloned().unwrap_or_else(|| "ok".into());
+                out.violation(
+                    &format!("where-constant-spelling-changes-acceptance({shape})"),
+                    &format!("computed: {}; literal: {}; inline: {}", cls(a_), cls(b_), cls(c_)),
+                    detail,
+                );
+            }
+        }
+    }
+}
+
 impl Driver for C10 {
     fn id(&self) -> &'static str {
         "C10"
@@ -460,6 +553,7 @@ impl Driver for C10 {
             return;
         }
         let mut rng = unit_rng(ctx, "C10", out.unit);
+        where_constant_twins(&mut rng, out, only);
         for case in 0..40 {
             if case < 25 {
                 // random larger trees
@@ -528,7 +622,7 @@ impl Driver for C10 {
         }
     }
     fn rule(&self) -> String {
-        "(a) Exp::simplify, Exp::flatten and flatten().simplify() on every expression tree with <= 2 operators over leaves {x, y, 0, 1, -0.0, 2, 0.5, 3} and operators neg, abs, not (both forms), + - * /, min, max, and/or (n-ary and BinOp forms), xor, implies, iff (units 0..99 sweep this finite set completely at every run), plus random trees of depth <= 4 with 1..3-ary and/or/min/max; each is evaluated exactly at the 16 assignments x,y in {0,1,2,-3/2}: defined values must be preserved, a defined expression must stay defined, a division by zero must not disappear, simplify must be idempotent. (b) G-model models whose literal products c*e are re-spelled as c*x, x*c, -(-c)*x, (0-(-c))*x, (c/2+c/2)*x, x/(1/c), 1*c*x: both twins are compiled; they must be accepted or rejected alike (same error kind) and, when accepted, accept the same assignments with the same best objective on the C01 point sets. non-trivial = expression with at least one decided assignment / twin pair with >= 3 decided assignments".into()
+        "(a) Exp::simplify, Exp::flatten and flatten().simplify() on every expression tree with <= 2 operators over leaves {x, y, 0, 1, -0.0, 2, 0.5, 3} and operators neg, abs, not (both forms), + - * /, min, max, and/or (n-ary and BinOp forms), xor, implies, iff (units 0..99 sweep this finite set completely at every run), plus random trees of depth <= 4 with 1..3-ary and/or/min/max; each is evaluated exactly at the 16 assignments x,y in {0,1,2,-3/2}: defined values must be preserved, a defined expression must stay defined, a division by zero must not disappear, simplify must be idempotent. (b) G-model models whose literal products c*e are re-spelled as c*x, x*c, -(-c)*x, (0-(-c))*x, (c/2+c/2)*x, x/(1/c), 1*c*x: both twins are compiled; they must be accepted or rejected alike (same error kind) and, when accepted, accept the same assignments with the same best objective on the C01 point sets. (c) a coefficient computed in the where-section from integer and decimal literals (a - b, a + b, a * b, a / d, (a - b) * d, -a + b, a - b - d, optionally through a second constant), the same value written as a literal, and the same expression written inline must give the same coefficients (1e-12). non-trivial = expression with at least one decided assignment / twin pair with >= 3 decided assignments".into()
     }
     fn thresholds(&self, tier: Tier) -> Thresholds {
         let s = tier.pick(1, 10);
@@ -538,6 +632,7 @@ impl Driver for C10 {
                 ("rewrite-checked:random", 5000 * s),
                 ("twin:same-meaning", 600 * s),
                 ("twin:rejected:MissingFiniteBounds", 20 * s),
+                ("where-constant-twins-agree", 1000 * s),
             ],
             min_nontrivial: 100000,
         }
